@@ -72,6 +72,54 @@ class Merge(ast.NodeTransformer):
         return node
 
 
+class ConstMerge(ast.NodeTransformer):
+    """Module-wide, conservative form of Merge: `K1 if c else K2` with two literal constants becomes
+    __symx_ite(c, K1, K2).  Literal arms cannot raise or have effects, so evaluating both is
+    equivalent to evaluating one; for a concrete test core.ite returns exactly the arm CPython
+    would have.  Removes the 2-way fork at every `1 if result == 0 else 0` flag computation."""
+
+    count = 0
+
+    def visit_IfExp(self, node):
+        self.generic_visit(node)
+        if isinstance(node.body, ast.Constant) and isinstance(node.orelse, ast.Constant):
+            ConstMerge.count += 1
+            return ast.copy_location(ast.Call(func=ast.Name(id="__symx_ite", ctx=ast.Load()),
+                                              args=[node.test, node.body, node.orelse], keywords=[]), node)
+        return node
+
+
+def load_module_transformed(name, passes):
+    """Import module `name` from its real source file with `passes` applied to the whole module AST.
+    Must run before anything else imports the module."""
+    import importlib.util
+    import sys
+    if name in sys.modules:
+        m = sys.modules[name]
+        if getattr(m, "__symx_transformed__", False):
+            return m
+        raise core.EngineError(f"{name} was imported before the source transform could be installed")
+    spec = importlib.util.find_spec(name)
+    src = open(spec.origin).read()
+    tree = ast.parse(src, filename=spec.origin)
+    for p in passes:
+        tree = p.visit(tree)
+    ast.fix_missing_locations(tree)
+    mod = importlib.util.module_from_spec(spec)
+    mod.__dict__.update(HOOKS)
+    mod.__symx_transformed__ = True
+    sys.modules[name] = mod
+    try:
+        exec(compile(tree, spec.origin, "exec"), mod.__dict__)
+    except BaseException:
+        del sys.modules[name]
+        raise
+    parent, _, leaf = name.rpartition(".")
+    if parent and parent in sys.modules:
+        setattr(sys.modules[parent], leaf, mod)
+    return mod
+
+
 HOOKS = {
     "__symx_join": _join,
     "__symx_ite": core.ite,
